@@ -32,6 +32,15 @@ fn strategy(max_len: usize) -> impl Strategy<Value = SigVal> {
     ]
 }
 
+/// very large vectors (millions of elements, lengths that are not multiples of typical block sizes)
+fn big_strategy() -> impl Strategy<Value = SigVal> {
+    let len = prop_oneof![prop::sample::select(vec![(1u32 << 22) + 5, (1 << 22) + 65_535, (1 << 23) + 12_345, (1 << 20) + 3, (1 << 24) + 1]), (1u32 << 20)..(1u32 << 23)];
+    (len, any::<u64>(), any::<bool>()).prop_map(|(n, s, wide)| if wide { SigVal::BigU32(n, s) } else { SigVal::BigU16(n, s) })
+}
+
+fn _doc() {
+}
+
 /// child side (regular build of the harness)
 pub fn child(inp: &Value) -> Value {
     let vals: Vec<SigVal> = serde_json::from_value(inp["values"].clone()).unwrap_or_default();
@@ -69,6 +78,15 @@ fn run_engine(e: Engine, vals: &[SigVal], with_sha: bool) -> ChildOutcome {
 
 pub fn judge(v: &SigVal, o: &ProbeOut) -> Result<(), String> {
     let want = v.reference();
+    if let Some(d) = &o.digests {
+        let wd = digest(&want);
+        for (i, name) in ["get_sig()", "a second get_sig()", "get_sig() of an equal value with spare capacity"].iter().enumerate() {
+            if d.get(i) != Some(&wd) {
+                return Err(format!("{} value of length {}: {} has (byte length, digest) {:?} but the native-endian byte representation has {:?}", v.type_name(), v.len(), name, d.get(i), wd));
+            }
+        }
+        return Ok(());
+    }
     let show = |b: &[u8]| format!("{:02x?}{}", &b[..b.len().min(24)], if b.len() > 24 { format!(".. ({} bytes)", b.len()) } else { String::new() });
     if o.sig != want {
         return Err(format!("{} value of length {}: get_sig() returned {} but the native-endian byte representation is {}", v.type_name(), v.len(), show(&o.sig), show(&want)));
@@ -169,7 +187,7 @@ fn run_batch(ctx: &Ctx, e: Engine, vals: &[SigVal], sub: &str) -> bool {
 }
 
 pub fn run(ctx: &Ctx) {
-    ctx.set_rule("proptest-generated values of every type implementing the byte-identity trait (u8, u16, u32, u64, i16, i32, String incl. multi-byte text, Vec<u8>, Vec<u16>, Vec<u32>; vector lengths 0..19, around allocator size classes up to 4097, 65535/65536 and 1e5). \
+    ctx.set_rule("proptest-generated values of every type implementing the byte-identity trait (u8, u16, u32, u64, i16, i32, String incl. multi-byte text, Vec<u8>, Vec<u16>, Vec<u32>; vector lengths 0..19, around allocator size classes up to 4097, 65535/65536 and 1e5, plus a few vectors of 1e6 .. 1.7e7 elements described by (length, seed)). \
         Each value is processed in a child process built normally and again in a child built with AddressSanitizer: get_sig() twice (with allocator churn in between) must equal the independently computed native-endian bytes, and ProbMinHash3aSha over keys of that type must complete and give the same signature for two insertion orders. \
         Abnormal termination of a child (glibc abort, ASan report) is the memory-safety signal; the crashing value is isolated and shortened. Non-trivial = non-empty value. Distinct = distinct (value, engine).");
     ctx.assume("AddressSanitizer catches use-after-free, double free and out-of-bounds accesses; a deallocation with a mismatched layout is only caught by the Miri run of the thorough tier");
@@ -197,6 +215,21 @@ pub fn run(ctx: &Ctx) {
             });
         }
     });
+    if ctx.n_violations() == 0 {
+        let nbig = ctx.tier.pick(6, 60);
+        let bigs: Vec<SigVal> = crate::props::sample_cases(ctx, "big-values", &big_strategy(), nbig);
+        std::thread::scope(|s| {
+            for chunk in bigs.chunks(1) {
+                s.spawn(move || {
+                    for e in [Engine::Plain, Engine::Asan] {
+                        if ctx.n_violations() > 0 || !run_batch(ctx, e, chunk, "values") {
+                            return;
+                        }
+                    }
+                });
+            }
+        });
+    }
     if ctx.tier == Tier::Thorough && ctx.n_violations() == 0 {
         miri(ctx, &vals);
     }
